@@ -22,6 +22,37 @@ func pathUniverse() []fieldpath.Path {
 	}
 }
 
+// a universe with many siblings per node (the set operations and member searches
+// change strategy with the number of members)
+func wideUniverse() []fieldpath.Path {
+	var els []fieldpath.PathElement
+	for i := 0; i < 14; i++ {
+		els = append(els, peField("f"+string(rune('a'+i))))
+	}
+	for i := 0; i < 8; i++ {
+		els = append(els, peKey("name", "k"+string(rune('a'+i))))
+	}
+	for i := 0; i < 6; i++ {
+		els = append(els, peValue(int64(i)))
+	}
+	for i := 0; i < 4; i++ {
+		els = append(els, peIndex(i))
+	}
+	var out []fieldpath.Path
+	for _, x := range els {
+		out = append(out, fieldpath.Path{x})
+	}
+	for _, x := range els {
+		out = append(out, fieldpath.Path{els[3], x})
+	}
+	for i, x := range els {
+		if i%2 == 0 {
+			out = append(out, fieldpath.Path{els[16], els[1], x})
+		}
+	}
+	return out
+}
+
 func subsetOf(u []fieldpath.Path, mask int) []fieldpath.Path {
 	var out []fieldpath.Path
 	for i := range u {
@@ -108,5 +139,21 @@ func genC15(e *emitter, tier string) {
 			b = append(b, full[e.rng.Intn(len(full))])
 		}
 		emitSetOps(e, shuffled(e, a), shuffled(e, b), full, full[e.rng.Intn(len(full))][0])
+	}
+	// random sets with many siblings per node
+	wide := wideUniverse()
+	for k := 0; k < rn/3; k++ {
+		var a, b []fieldpath.Path
+		da, db := 1+e.rng.Intn(4), 1+e.rng.Intn(6)
+		for _, p := range wide {
+			if e.rng.Intn(da) == 0 {
+				a = append(a, p)
+			}
+			if e.rng.Intn(db) == 0 {
+				b = append(b, p)
+			}
+		}
+		probe := shuffled(e, wide)[:24]
+		emitSetOps(e, shuffled(e, a), shuffled(e, b), probe, wide[e.rng.Intn(len(wide))][0])
 	}
 }
